@@ -2,15 +2,16 @@
 # eval_refactors.sh [tier] [ids...] : applies each behaviour-preserving refactoring (/verif/refactors/r*.diff) to a
 # scratch worktree of /repo (VERIF_REPO, so /repo itself stays untouched), runs ALL 20 checks, undoes it. A refactoring
 # must not raise an alarm; prints one line per (refactor, failing check) and one summary line per refactoring.
+V=$(dirname "$(dirname "$(readlink -f "$0")")")   # /verif, or a snapshot of it
 tier=${1:-quick}; shift
-ids="$@"; [ -z "$ids" ] && ids=$(ls /verif/refactors/r*.diff | xargs -n1 basename | sed 's/\.diff$//' | sort -V)
+ids="$@"; [ -z "$ids" ] && ids=$(ls $V/refactors/r*.diff | xargs -n1 basename | sed 's/\.diff$//' | sort -V)
 wt=/tmp/evalrf.$$
 git -C /repo worktree add -q --detach $wt HEAD || exit 2
-cd /verif
+cd $V
 export VERIF_EVIDENCE=/tmp/evidence.eval.$$   # evidence of these runs is scratch
-trap 'rm -rf /tmp/evidence.eval.$$; git -C /repo worktree remove --force '$wt EXIT
+trap 'rm -rf /tmp/evidence.eval.$$; git -C /repo worktree remove --force '$wt'; env -u VERIF_REPO '$V'/build.sh >/dev/null 2>&1' EXIT   # the last line regenerates lean/Sipsp/Generated from /repo itself
 for id in $ids; do
-  f=/verif/refactors/$id.diff
+  f=$V/refactors/$id.diff
   if ! git -C $wt apply --check $f 2>/dev/null; then echo "$id: patch does not apply"; continue; fi
   git -C $wt apply $f
   bad=0
